@@ -104,6 +104,16 @@ def IEH(context, error):
     return True
 
 
+def EHF(context, error):
+    """error_handler returning False: the exception is not handled"""
+    return False
+
+
+def IEHF(context, error):
+    """include_error_handler returning False: the exception is not handled"""
+    return False
+
+
 class DictCache:
     """dict cache backend (duck-typed CacheImpl); one store per Cache, i.e. per Template"""
 
